@@ -103,6 +103,10 @@ AppClose == /\ IsEvent("close")
             /\ shut' = [shut EXCEPT ![Ev.e] = IF @ < 0 THEN written[Ev.e] ELSE @]
             /\ err' = [err EXCEPT ![Ev.e] = IF ~eos[Ev.e] /\ @ = "" THEN "closed-before-eos" ELSE @]
             /\ UNCHANGED <<cfg, up, written, offer, emitMax, delivered, eos, rstop, contig, pcontig, parked, okEnd, finArr, maxEdge, advEdge, mss, ws, faults, c5>>
+\* C02 ("eventually delivered ... followed by end-of-stream" as an application that sleeps on the readiness notification sees
+\* it): the reader found data / end-of-stream / an error only through its 2-second rescue poll, and no notification for it
+\* arrived within another 300 ms: an application blocked on the waiter queue alone would never have got it.
+MissedWake == /\ IsEvent("missedwake") /\ ~On("C02") /\ Same
 \* a connection may fail only with an explicit error; scenarios whose faults are finite and recoverable do not allow it,
 \* unless the peer failed or closed abortively before
 RErr == /\ IsEvent("rerr")
@@ -153,8 +157,14 @@ Emit == /\ IsEvent("emit") /\ "bad" \notin DOMAIN Ev
                  => Ev.ack - 1 >= pcontig[e]
            \* ---- C05 (clauses in module TcpC05)
            /\ (len > 0 /\ on("C05")) => C5EmitOK(c5[e], off, len, Ev.t, Fld(cfg, "kf_f7", FALSE), Fld(cfg, "cc", "") \in {"", "reno"})
+           \* ---- C05: every retransmission is either the fast retransmission or a retransmission by timeout, "never sooner than
+           \*      200 ms after its previous transmission".  Data that is wholly acknowledged (synchronous wire: the ACK was
+           \*      processed before anything else arrived) and goes out again a few milliseconds after its last transmission is
+           \*      neither (a timer that fired before the ACK was dequeued re-sends data whose last transmission is an RTO old).
+           /\ (len > 0 /\ on("C05") /\ Fld(cfg, "sync", FALSE) /\ off + len <= c5[e].una /\ IsRetx(c5[e], off))
+                 => Ev.t - PrevTx(c5[e], off) >= 200000
            \* ---- bookkeeping
-           /\ emitMax' = [emitMax EXCEPT ![e] = IF len > 0 THEN Max2(@, off + len) ELSE @]
+           /\ emitMax' =[emitMax EXCEPT ![e] = IF len > 0 THEN Max2(@, off + len) ELSE @]
            /\ advEdge' = [advEdge EXCEPT ![e] = IF ack /\ ~rst THEN Max2(@, edge) ELSE @]
            /\ mss' = [mss EXCEPT ![e] = IF syn THEN Ev.mss ELSE @]
            /\ ws' = [ws EXCEPT ![e] = IF syn THEN Ev.ws ELSE @]
@@ -227,7 +237,7 @@ End == /\ IsEvent("end")
                      (Ev.a.state = 5 /\ Ev.b.state = 5 /\ Ev.a.err = "" /\ Ev.b.err = "")
        /\ Same
 Panic == IsEvent("panic") /\ FALSE
-TNext == Reset \/ Skip \/ Up \/ WCall \/ WRet \/ ShutW \/ AppClose \/ Processed \/ Read \/ Eos \/ ReadStop \/ RErr \/ Emit \/ EmitOther \/ Arrive \/ ArriveOther
+TNext == Reset \/ Skip \/ Up \/ WCall \/ WRet \/ ShutW \/ AppClose \/ Processed \/ MissedWake \/ Read \/ Eos \/ ReadStop \/ RErr \/ Emit \/ EmitOther \/ Arrive \/ ArriveOther
          \/ Drop \/ Quiesce \/ End
 TSpec == TInit /\ [][TNext]_tvars
 ====
